@@ -775,14 +775,11 @@ pub fn handle(line: &str) -> Result<String, String> {
         ("run", 4) => run_cmd(a[0].as_atom()?, &a[1], &a[2], a[3].as_usize()? != 0, false),
         ("runp", 4) => run_cmd(a[0].as_atom()?, &a[1], &a[2], a[3].as_usize()? != 0, true),
         ("runpe", 5) => {
-            // (runpe text args wit dbg (locktime sequence fee)): unpruned and pruned under one non-default environment
-            let e = a[4].as_list()?;
-            let mk = || -> Result<_, String> {
-                Ok(simfony::dummy_env::dummy_with(
-                    simplicity::elements::LockTime::from_consensus(e[0].as_usize()? as u32),
-                    simplicity::elements::Sequence(e[1].as_usize()? as u32),
-                    e[2].as_usize()? != 0,
-                ))
+            // (runpe text args wit dbg (locktime sequence fee) | ((lt seq fee) (lt seq fee) ...)): unpruned and pruned under
+            // non-default environments; several environments are applied one after the other to ONE CompiledProgram
+            let envs: Vec<&Sexp> = match a[4].as_list()?.first() {
+                Some(Sexp::List(_)) => a[4].as_list()?.iter().collect(),
+                _ => vec![&a[4]],
             };
             let template = match TemplateProgram::new(a[0].as_atom()?) {
                 Ok(t) => t,
@@ -792,9 +789,21 @@ pub fn handle(line: &str) -> Result<String, String> {
                 Ok(c) => c,
                 Err(e) => return Ok(format!("(cerr {})", quote(&first_line(&e)))),
             };
-            let u = run_program_env(&compiled, WitnessValues::from(name_values(&a[2])?), false, mk()?);
-            let p = run_program_env(&compiled, WitnessValues::from(name_values(&a[2])?), true, mk()?);
-            Ok(format!("(unpruned {}) (pruned {})", u, p))
+            let mut outs = vec![];
+            for e in envs {
+                let e = e.as_list()?;
+                let mk = || -> Result<_, String> {
+                    Ok(simfony::dummy_env::dummy_with(
+                        simplicity::elements::LockTime::from_consensus(e[0].as_usize()? as u32),
+                        simplicity::elements::Sequence(e[1].as_usize()? as u32),
+                        e[2].as_usize()? != 0,
+                    ))
+                };
+                let u = run_program_env(&compiled, WitnessValues::from(name_values(&a[2])?), false, mk()?);
+                let p = run_program_env(&compiled, WitnessValues::from(name_values(&a[2])?), true, mk()?);
+                outs.push(format!("(unpruned {}) (pruned {})", u, p));
+            }
+            Ok(outs.join(" ; "))
         }
         _ => Err(format!("bad core case {}", &line[..line.len().min(80)])),
     }
